@@ -16,6 +16,7 @@ import os
 import sys
 import tokenize as tk
 
+import numpy as np
 import openpyxl.formula.tokenizer as tokenizer
 from networkx.classes.digraph import DiGraph
 from networkx.exception import NetworkXError
@@ -977,6 +978,11 @@ class ExcelFormula:
                 address = f"{excel_formula.cell.address}: " if excel_formula.cell else ""
                 error_logger('error', f"{address}{excel_formula.python_code}",
                              exc=FormulaEvalError)
+
+            if isinstance(ret_val, np.generic):
+                # a numpy scalar (FACTDOUBLE, SLOPE, ...): SUM, COUNT and
+                # ISNUMBER only know python numbers
+                ret_val = ret_val.item()
 
             if isinstance(ret_val, (int, float)) and not isinstance(
                     ret_val, bool):
